@@ -33,9 +33,11 @@ def member_events(p, root, record, skip_types=('HashMap',), max_depth=8):
     stack = []
     bound = {}                 # loop variables of loops over constant lists / small constant ranges: id -> current value
 
-    def slot_of(f, n):
-        """member node -> (member, indices); walks up the subscript chain"""
-        idx = []
+    aliases = {}               # reference locals bound to (part of) a member: id -> (member, index prefix)
+
+    def slot_of(f, n, base=None):
+        """member node (or a reference local standing for part of a member) -> (member, indices); walks up the subscript chain"""
+        idx = list(base[1]) if base else []
         cur = n
         par = f.parent(cur)
         while par is not None and (par['k'] in ('ImplicitCastExpr', 'ParenExpr') or
@@ -48,7 +50,7 @@ def member_events(p, root, record, skip_types=('HashMap',), max_depth=8):
                 idx.append(c if c is not None else '*')
             cur = par
             par = f.parent(cur)
-        return (short(n['ref']['n']), tuple(idx)), cur
+        return ((base[0] if base else short(n['ref']['n'])), tuple(idx)), cur
 
     def index_value(e):
         """an index built from unrolled loop variables (c, !c, make_piece(c, k), k + 1, ...): its value now, else None"""
@@ -115,8 +117,10 @@ def member_events(p, root, record, skip_types=('HashMap',), max_depth=8):
         reads, writes, calls = [], [], []
         for x in walk(e):
             r = x.get('ref') or {}
-            if r.get('k') == 'Field' and r.get('n') in qual and x['k'] == 'MemberExpr':
-                slot, top = slot_of(f, x)
+            is_member = r.get('k') == 'Field' and r.get('n') in qual and x['k'] == 'MemberExpr'
+            is_alias = r.get('k') == 'Local' and (f.id, r.get('id')) in aliases and x['k'] == 'DeclRefExpr'
+            if is_member or is_alias:
+                slot, top = slot_of(f, x, aliases.get((f.id, r.get('id'))) if is_alias else None)
                 k = access_kind(f, x)
                 if k == 'read':
                     reads.append(('R', slot, cond, f.loc(x)))
@@ -125,8 +129,7 @@ def member_events(p, root, record, skip_types=('HashMap',), max_depth=8):
                 elif k == 'rmw':
                     writes.append(('A' if not out_param_set(f, top) else 'W', slot, cond, f.loc(x)))
                 elif k in ('addr', 'call'):
-                    # handed to a callee by reference / a non-const member called on it: taken as set there
-                    writes.append(('W', slot, cond, f.loc(x)))
+                    raise AnalysisBroken('EVALSEQ: the address of %s escapes at %s (a pointer or reference the walk does not follow)' % (slot[0], f.loc(x)))
             g = p.funcs.get((x.get('callee') or {}).get('fid')) if x.get('callee') else None
             if g is not None and g.body is not None and reaches(g.id):
                 calls.append(g)
@@ -192,6 +195,22 @@ def member_events(p, root, record, skip_types=('HashMap',), max_depth=8):
         elif k == 'DeclStmt':
             for d in kids(st):
                 if d['k'] == 'VarDecl' and kids(d):
+                    t = (d.get('t') or '')
+                    init = strip_casts(kids(d)[0])
+                    if '&' in t and '&&' not in t and init is not None:
+                        # a reference to (part of) a member: later accesses through it are accesses to the member
+                        base = init
+                        while base is not None and base['k'] in ('ArraySubscriptExpr', 'ImplicitCastExpr', 'ParenExpr') and kids(base):
+                            base = kids(base)[0]
+                        br = (base.get('ref') or {}) if base is not None else {}
+                        if base is not None and base['k'] == 'MemberExpr' and br.get('k') == 'Field' and br.get('n') in qual:
+                            slot, _top = slot_of(f, base)
+                            # index expressions of the binding are evaluated now (reads of other members inside them count)
+                            for sub in walk(init):
+                                if sub['k'] == 'ArraySubscriptExpr':
+                                    expr_events(f, kids(sub)[1], cond, depth)
+                            aliases[(f.id, d['id'])] = slot
+                            continue
                     expr_events(f, kids(d)[0], cond, depth)
         elif k == 'ReturnStmt':
             if kids(st):
